@@ -18,11 +18,11 @@ ASSUME = ['nine worlds: gcc -O2 -funsigned-char -march=x86-64-v3 with the BSD/ne
           'inputs outside the stated lattices are not executed']
 
 
-def build(prop, opt='-O2', fresh=True, defs=(), cc='gcc', tag=''):
+def build(prop, opt='-O2', fresh=True, defs=(), cc='gcc', tag='', caller_defs=(), soft=False):
     b = core.fresh_dir(os.path.join(core.ROOT, 'build', prop)) if fresh else os.path.join(core.ROOT, 'build', prop)
     g = os.path.join(b, 'gen')
     core.run_gen(g)
-    wobjs = core.build_world(os.path.join(b, 'world' + opt + tag + ('' if cc == 'gcc' else '-' + cc)), g, cc=cc, cflags=(opt, '-g'), world_srcs=['wrap_generic.c', 'wrap_ser.c', 'wrap_bo.c'], defines=defs)
+    wobjs = core.build_world(os.path.join(b, 'world' + opt + tag + ('' if cc == 'gcc' else '-' + cc)), g, cc=cc, cflags=(opt, '-g'), world_srcs=['wrap_generic.c', 'wrap_ser.c', 'wrap_bo.c'], defines=defs, caller_defs=caller_defs, soft=soft)
     # the other preprocessor branch of Byteorder.h, as a second set of functions
     o2 = os.path.join(b, 'world' + opt + tag + ('' if cc == 'gcc' else '-' + cc), 'wrap_bo2.o')
     o3 = os.path.join(b, 'world' + opt + tag + ('' if cc == 'gcc' else '-' + cc), 'wrap_bo3.o')
@@ -48,15 +48,22 @@ def vss_talker_finalisation(res, bdir, npk):
     for init in ('pattern', 'none'):
         exe = e4.build_program(bdir, 'acf-vss-talker', init=init)
         modes = [('ntscf/udp', '-u 10.0.0.2:17220', 1, 0), ('tscf/udp', '-t -u 10.0.0.2:17220', 1, 1), ('ntscf/raw', 'eth0 aa:bb:cc:dd:ee:ff', 0, 0), ('tscf/raw', '-t eth0 aa:bb:cc:dd:ee:ff', 0, 1)]
-        r = e4.run_batch(exe, [(m[0], m[1], 'sleeps=%d' % npk, []) for m in modes])
+        # environment answers for sending: every send succeeds; or the 2nd / 3rd send is interrupted by a signal (EINTR,
+        # nothing left the host) - whatever the program does then, every datagram it does send must be finalised
+        modes = modes + [(m[0] + ', send %d interrupted' % k, m[1], m[2], m[3]) for m in modes for k in (2, 3)]
+        r = e4.run_batch(exe, [(m[0], m[1], 'sleeps=%d' % npk + (',sendint=' + m[0].split('send ')[1].split()[0] if 'interrupted' in m[0] else ''), []) for m in modes])
         for label, args, udp, tscf in modes:
             st, eff, rep = r[label]
             cls = e4.classify(st, rep)
+            if 'interrupted' in label and 'SENDINT' not in eff and not cls:
+                core.die_infra('the send seam did not deliver the interruption (%s)' % label)
+            if cls and 'interrupted' in label and st.startswith('returned') and not rep.strip():
+                cls = None      # the program may give up after a failed send (exit status is its own business)
             if cls:
                 res.viol[('C09', 'acf-vss-talker: ' + cls)] = {'count': 1, 'case': 'C09:9:0:0:0:0:0:0', 'detail': 'mode %s (%s build): %s' % (label, init, rep[:300] or st), 'tag': 'talker'}
                 continue
             pkts = [bytes.fromhex(x[4:]) for x in eff.split(';') if x.startswith('PKT ')]
-            if len(pkts) < npk:
+            if len(pkts) < npk and 'interrupted' not in label:
                 res.viol[('C09', 'acf-vss-talker: sends fewer packets than its loop ran')] = {'count': 1, 'case': 'C09:9:0:0:0:0:0:0', 'detail': 'mode %s: %d packets' % (label, len(pkts)), 'tag': 'talker'}
             for p in pkts:
                 n += 1
@@ -105,7 +112,21 @@ def run(prop, tier):
     exec_ = build(prop, '-O2', fresh=False, cc='clang')
     res = core.run_slices(exec_, ['--suite', prop, '--tier', tier], timeout=1500 if tier == 'thorough' else 600, result=res, tag='clang -O2')
     res = core.run_slices(exe, ['--suite', prop, '--tier', 'quick' if tier == 'thorough' else tier, '--callmode', '1'], timeout=900, result=res, tag='calls through (name)(...)')
-    res = core.run_slices(exe, ['--suite', prop, '--tier', 'quick' if tier == 'thorough' else tier, '--callmode', '2'], timeout=900, result=res, tag='pointer arguments spelled as untyped sums')
+    try:
+        exeu = build(prop, '-O2', fresh=False, tag='-untyped', caller_defs=('-DW_UNTYPED',), soft=True)
+        res = core.run_slices(exeu, ['--suite', prop, '--tier', 'quick' if tier == 'thorough' else tier], timeout=900, result=res, tag='pointer arguments spelled as untyped sums')
+    except core.WorldUnavailable as e:
+        res.incomplete.append('world left out: ' + str(e))
+    # configuration switches of the public headers (names a header tests that nothing defines): callers compiled with each
+    for pb in core.platform_branches():
+        res.incomplete.append('code behind the platform macro %s is compiled in no world of this sandbox' % pb)
+    for sw in core.header_switches():
+        try:
+            exes = build(prop, '-O2', fresh=False, tag='-sw-' + sw, caller_defs=('-D%s=1' % sw,), soft=True)
+            res = core.run_slices(exes, ['--suite', prop, '--tier', 'quick' if tier == 'thorough' else tier], timeout=900, result=res, tag='callers compiled with -D%s' % sw)
+            res.notes['header switch ' + sw] = 'explored (callers compiled with -D%s=1)' % sw
+        except core.WorldUnavailable as e:
+            res.incomplete.append('world left out: ' + str(e))
     NOMACRO = ('-U__BYTE_ORDER__', '-U__ORDER_LITTLE_ENDIAN__', '-U__ORDER_BIG_ENDIAN__', '-U__ORDER_PDP_ENDIAN__', '-Wno-builtin-macro-redefined')
     exem = build(prop, '-O2', fresh=False, defs=NOMACRO, tag='-nomacro')
     res = core.run_slices(exem, ['--suite', prop, '--tier', tier], timeout=1500 if tier == 'thorough' else 600, result=res, tag='gcc -O2, byte-order macros undefined')
